@@ -73,8 +73,12 @@ class CmdDevice(Device):
     outside (another task, a GUI) between two cycles"""
     out = TerminalVar()
 
-    def __init__(self, t):
-        self.out = PacketVar(t, SyncManager.OUT, 3, "B")
+    def __init__(self, t, wide):
+        # (wide: a 4-byte value declared with the C type letter 'l', whose
+        # native size on this machine is 8)
+        self.wide = wide
+        self.out = PacketVar(t, SyncManager.OUT, 4 if wide else 3,
+                             "l" if wide else "B")
 
     def update(self):
         pass
@@ -163,7 +167,7 @@ def run_case(case):
                         for s, d in zip(sims, case["terms"])]))
             return [] if lost else [(0.0002, resp)]
         bus.attach(ec, loop, b, policy)
-        cmddevs = [(ti, CmdDevice(t))
+        cmddevs = [(ti, CmdDevice(t, d["osz"] >= 8))
                    for ti, (t, d) in enumerate(zip(ts, case["terms"]))
                    if d["rw"] and d["osz"] >= 4][:1]
         sg = SyncGroup(ec, devs + [bd for _, bd in bitdevs]
@@ -173,9 +177,11 @@ def run_case(case):
         def command(ti, cd, value):
             if sg.task is None or sg.task.done():
                 return
+            if cd.wide:
+                value = value * 65537 - 70000
             cd.out = value
             hists[-1].setdefault("commands", []).append(
-                dict(t=loop.time(), term=ti, value=value))
+                dict(t=loop.time(), term=ti, value=value, wide=cd.wide))
 
         def upd(data):
             before = sg.wkc_errors
@@ -358,6 +364,24 @@ def check_run(case, hist, res, seg):
         f = later[0]
         st = assign[ts[cmd["term"]]][SyncManager.OUT]
         res.count("commanded_outputs_checked")
+        if cmd.get("wide"):
+            res.count("commanded_outputs_of_format_l")
+            if len(f["sent"]) != len(hist["cyc"][0]["sent"]):
+                res.violation(
+                    "unexplained:frame-length-changed",
+                    f"cyclic frames changed their length from "
+                    f"{len(hist['cyc'][0]['sent'])} to {len(f['sent'])} "
+                    f"bytes", case=case)
+                return False
+            got4, = struct.unpack_from("<l", f["sent"], st + 4)
+            if got4 != cmd["value"]:
+                res.violation(
+                    "unexplained:output-data",
+                    f"{ts[cmd['term']].name}{tag}: a 4-byte output ('l') "
+                    f"commanded to {cmd['value']} is {got4} in the next "
+                    f"frame", case=case)
+                return False
+            continue
         if f["sent"][st + 3] != cmd["value"]:
             res.violation(
                 "unexplained:output-data",
